@@ -19,6 +19,7 @@ import (
 
 	"verif/harness/modelstore"
 
+	"github.com/zitadel/oidc/v3/pkg/client/rp"
 	"github.com/zitadel/oidc/v3/pkg/crypto"
 	"github.com/zitadel/oidc/v3/pkg/oidc"
 	"github.com/zitadel/oidc/v3/pkg/op"
@@ -49,6 +50,7 @@ type Driver struct {
 	ucOf    map[string]string // d1.. -> user code
 
 	LastRaw *RawResponse // concrete request/response log of the last operation (for replays)
+	ks      oidc.KeySet  // library key set on the provider's /keys
 }
 
 type RawResponse struct {
@@ -77,19 +79,22 @@ func NewDriver(w *WorldJSON, cfg Cfg) *Driver {
 // ------------------------------------------------------------ out record (mirror of OP!NoOut)
 
 func noTok() M {
-	return M{"name": "none", "kind": "none", "client": "none", "sub": "none", "scopes": []string{}, "aud": []string{}}
+	return M{"name": "none", "kind": "none", "client": "none", "sub": "none", "scopes": []string{}, "aud": []string{},
+		"lib": "none", "iss": "none", "jsub": "none", "jclient": "none", "expOK": true, "fresh": true, "sealed": "none"}
 }
 func noRt() M {
 	return M{"name": "none", "client": "none", "sub": "none", "scopes": []string{}, "aud": []string{}, "auth": "none", "root": "none"}
 }
 func noIdt() M {
 	return M{"name": "none", "sub": "none", "aud": []string{}, "azp": "none", "nonce": "none", "iss": "none",
-		"athash": "absent", "chash": "absent", "auth": "none", "sig": "none", "uclaims": []string{}}
+		"athash": "absent", "chash": "absent", "auth": "none", "sig": "none", "uclaims": []string{},
+		"lib": "none", "life": 0, "fresh": true, "amr": []string{}}
 }
 func NoOut() M {
 	return M{"class": "none", "status": 0, "err": "none", "doc": false, "req": "none", "target": "none", "channel": "none",
 		"state": "none", "code": "none", "at": noTok(), "rt": noRt(), "idt": noIdt(), "scope": []string{}, "sub": "none",
-		"rotated": "none", "bare": true, "dc": "none", "uc": "none", "journal": []string{}, "issuedType": "", "actor": "none"}
+		"rotated": "none", "bare": true, "dc": "none", "uc": "none", "journal": []string{}, "issuedType": "", "actor": "none",
+		"auth": "none", "expiresOff": 0}
 }
 
 // ------------------------------------------------------------ helpers on generic args
@@ -276,7 +281,65 @@ func (d *Driver) ProjectAT(raw string) M {
 	d.atRaw[n] = raw
 	t["name"], t["kind"], t["client"], t["sub"] = n, kind, none(cp.Client), none(cp.Subject)
 	t["scopes"], t["aud"] = orEmpty(cp.Scopes), orEmpty(cp.Audience)
+	d.atFacts(t, raw, kind, &cp)
 	return t
+}
+
+// handlerTransport lets the library's own HTTP clients (remote key set) talk to the in-process provider.
+type handlerTransport struct{ h http.Handler }
+
+func (t handlerTransport) RoundTrip(r *http.Request) (*http.Response, error) {
+	rec := httptest.NewRecorder()
+	t.h.ServeHTTP(rec, r)
+	return rec.Result(), nil
+}
+
+// KeySet is the library's remote key set pointed at this provider's published /keys document.
+func (d *Driver) KeySet() oidc.KeySet {
+	if d.ks == nil {
+		d.ks = rp.NewRemoteKeySet(&http.Client{Transport: handlerTransport{d.H}}, Issuer+"/keys")
+	}
+	return d.ks
+}
+
+func abstractIssuer(iss string) string {
+	if iss == Issuer {
+		return "issuer"
+	}
+	return none(iss)
+}
+
+// atFacts adds the C06 facts of an access token the provider just issued.
+func (d *Driver) atFacts(t M, raw, kind string, st *modelstore.Token) {
+	now := time.Now()
+	if kind == "opaque" {
+		plain, _ := crypto.DecryptAES(raw, string(CryptoKey[:]))
+		t["sealed"] = "ok"
+		if plain != st.ID+":"+st.Subject {
+			t["sealed"] = "wrongplain"
+		}
+		if other, err := crypto.DecryptAES(raw, string(OtherCryptoKey[:])); err == nil && other == plain {
+			t["sealed"] = "otherkey"
+		}
+		return
+	}
+	claims, err := op.VerifyAccessToken[*oidc.AccessTokenClaims](context.Background(), raw, op.NewAccessTokenVerifier(Issuer, d.KeySet(),
+		op.WithSupportedAccessTokenSigningAlgorithms(string(d.Store.Signing.Alg))))
+	if err != nil {
+		t["lib"] = "fail:" + err.Error()
+	} else {
+		t["lib"] = "ok"
+	}
+	var c M
+	if p, err := base64.RawURLEncoding.DecodeString(strings.Split(raw, ".")[1]); err == nil {
+		json.Unmarshal(p, &c)
+	}
+	t["iss"], t["jsub"], t["jclient"] = abstractIssuer(S(c, "iss")), none(S(c, "sub")), none(S(c, "client_id"))
+	exp, _ := c["exp"].(float64)
+	iat, _ := c["iat"].(float64)
+	t["expOK"] = int64(exp) == st.Expiry.Unix() || int64(exp) == st.Expiry.Unix()+1 || int64(exp) == st.Expiry.Unix()-1
+	t["fresh"] = int64(iat) <= now.Unix()+1 && now.Unix() <= int64(exp)
+	_ = claims
 }
 
 func orEmpty(s []string) []string {
@@ -335,7 +398,12 @@ func (d *Driver) ProjectIDT(raw, at, code string) M {
 	}
 	var c M
 	json.Unmarshal(payload, &c)
-	t["sub"], t["azp"], t["nonce"], t["iss"] = none(S(c, "sub")), none(S(c, "azp")), S(c, "nonce"), none(S(c, "iss"))
+	t["sub"], t["azp"], t["nonce"], t["iss"] = none(S(c, "sub")), none(S(c, "azp")), S(c, "nonce"), abstractIssuer(S(c, "iss"))
+	t["amr"] = SS(c, "amr")
+	exp, _ := c["exp"].(float64)
+	iat, _ := c["iat"].(float64)
+	now := time.Now().Unix()
+	t["life"], t["fresh"] = int64(exp)-int64(iat), int64(iat) <= now+1 && now <= int64(exp)
 	switch a := c["aud"].(type) {
 	case string:
 		t["aud"] = []string{a}
@@ -359,6 +427,25 @@ func (d *Driver) ProjectIDT(raw, at, code string) M {
 	}
 	t["athash"] = hashOf("at_hash", at)
 	t["chash"] = hashOf("c_hash", code)
+	// the library's own verification against the provider's published key set (client = the token's azp / first audience)
+	cid := S(c, "azp")
+	if cid == "" {
+		if a := t["aud"].([]string); len(a) > 0 {
+			cid = a[0]
+		}
+	}
+	v := rp.NewIDTokenVerifier(Issuer, cid, d.KeySet(), rp.WithSupportedSigningAlgorithms(string(alg)), rp.WithNonce(func(context.Context) string { return S(c, "nonce") }))
+	var verr error
+	if at != "" && t["athash"] != "absent" {
+		_, verr = rp.VerifyTokens[*oidc.IDTokenClaims](context.Background(), at, raw, v)
+	} else {
+		_, verr = rp.VerifyIDToken[*oidc.IDTokenClaims](context.Background(), raw, v)
+	}
+	if verr != nil {
+		t["lib"] = "fail:" + verr.Error()
+	} else {
+		t["lib"] = "ok"
+	}
 	uc := []string{}
 	for _, k := range []string{"email", "email_verified", "name", "preferred_username", "phone_number", "address"} {
 		if _, ok := c[k]; ok {
@@ -593,6 +680,20 @@ func (d *Driver) tokenResponse(r *RawResponse, out M, code string) {
 	}
 	out["expiresIn"] = body.ExpiresIn
 	if at, ok := out["at"].(M); ok && S(at, "name") != "none" && S(at, "name") != "unknown" {
+		// expires_in agrees with the expiry the store recorded (seconds of disagreement)
+		d.Store.Lock()
+		for sid, n := range d.atNm {
+			if st, ok := d.Store.Tokens[sid]; ok && n == S(at, "name") {
+				off := int64(body.ExpiresIn) - int64(time.Until(st.Expiry).Round(time.Second).Seconds())
+				if off < 0 {
+					off = -off
+				}
+				out["expiresOff"] = off
+			}
+		}
+		d.Store.Unlock()
+	}
+	if at, ok := out["at"].(M); ok && S(at, "name") != "none" && S(at, "name") != "unknown" {
 		d.Store.Lock()
 		for sid, n := range d.atNm {
 			if n == S(at, "name") {
@@ -750,6 +851,9 @@ func (d *Driver) Exec(opName string, a M) M {
 	case "Login":
 		if id, ok := d.reqID[S(a, "req")]; ok && d.Store.Login(id, S(a, "user")) {
 			out["class"] = "ok"
+			d.Store.Lock()
+			out["auth"] = fmt.Sprint(d.Store.Requests[id].AuthTime.Unix())
+			d.Store.Unlock()
 		} else {
 			out["class"] = "noop"
 		}
